@@ -33,6 +33,24 @@ func realMain() int {
 		return cmdRun(os.Args[2:])
 	case "check":
 		return cmdCheck(os.Args[2:])
+	case "replay":
+		// gosym replay <tape.json> : native replay of a tape written by a check
+		data, err := os.ReadFile(os.Args[2])
+		if err != nil {
+			fmt.Fprintln(os.Stderr, err)
+			return 2
+		}
+		var tape replayTape
+		if err := json.Unmarshal(data, &tape); err != nil {
+			fmt.Fprintln(os.Stderr, err)
+			return 2
+		}
+		o := nativeReplay("/repo", &tape, os.Args[2])
+		fmt.Printf("outcome=%s detail=%s\n", o.Outcome, o.Detail)
+		if len(os.Args) > 3 {
+			fmt.Println(o.Raw)
+		}
+		return 0
 	}
 	fmt.Fprintln(os.Stderr, "unknown subcommand", os.Args[1])
 	return 2
@@ -55,6 +73,7 @@ func cmdRun(args []string) int {
 	timeout := fs.Int("timeout", 20000, "per-query timeout ms")
 	panics := fs.Bool("panics", true, "report panics as violations")
 	redirect := fs.String("redirect", "", "callee=harnessFn;...")
+	tapes := fs.String("tapes", "", "directory to write a tape per violation label (ircserver dev runs)")
 	stubs := fs.String("stubs", "", "callee=kind;callee=kind")
 	apis := fs.String("apis", "", "extra api templates (comma separated, e.g. ldb)")
 	deadline := fs.Int("deadline", 0, "stop after this many seconds")
@@ -128,6 +147,29 @@ func cmdRun(args []string) int {
 		ex.deadline = time.Now().Add(time.Duration(*deadline) * time.Second)
 	}
 	st := ex.Run()
+	if *tapes != "" {
+		os.MkdirAll(*tapes, 0o755)
+		seen := map[string]bool{}
+		for _, v := range st.Violations {
+			if seen[v.Label] || v.Draws == nil {
+				continue
+			}
+			seen[v.Label] = true
+			var fl []string
+			for _, f := range strings.Split(*files, ",") {
+				if strings.HasSuffix(f, "api_sym.go") {
+					f = strings.Replace(f, "api_sym.go", "api_native.go", 1)
+				}
+				fl = append(fl, strings.TrimPrefix(f, verifRoot()+"/harness/"))
+			}
+			tp := &replayTape{Property: "dev", Harness: *entry, Pkg: *pkg, PkgName: *pkgName, Files: fl, Params: opts.Params, Draws: v.Draws, Expect: v.Label, Kind: v.Kind, Msg: v.Msg}
+			if *apis != "" {
+				tp.APIs = strings.Split(*apis, ",")
+			}
+			d, _ := json.MarshalIndent(tp, "", " ")
+			os.WriteFile(*tapes+"/"+sanitize(v.Label)+".json", d, 0o644)
+		}
+	}
 	printStats(st)
 	if len(st.Violations) > 0 {
 		return 1
@@ -187,8 +229,8 @@ func printStats(st *Stats) {
 	sort.Strings(notes)
 	fmt.Println("notes:", notes)
 	for i, v := range st.Violations {
-		if i >= 5 {
-			fmt.Printf("... %d more\n", len(st.Violations)-5)
+		if i >= 40 {
+			fmt.Printf("... %d more\n", len(st.Violations)-40)
 			break
 		}
 		d, _ := json.Marshal(v.Draws)
